@@ -88,6 +88,10 @@ def sampled(draw, max_side=6):
                              for _ in row] for row in b["rewards"]]
         # the rows of a hand-made board may be written as tuples just as well as lists
         b["rows"] = draw(st.sampled_from(("list", "list", "tuple")))
+        if draw(st.booleans()):
+            # another hand-made board was written in the same directory before: same shape, largest reward,
+            # probabilities and down-only flag - hence the same file name - but other loose tiles and arrows
+            b["prior"] = True
     return b
 
 
@@ -189,12 +193,30 @@ def emitted_games(board):
     os.chdir(d)
     try:
         row = tuple if board.get("rows") == "tuple" else list
+        before = {}
+        if board.get("prior"):
+            pm = [list(reversed(x)) for x in board["moves"]]
+            pl = [[1 - y for y in x] for x in board["loose"]]
+            pr = [list(reversed(x)) for x in board["rewards"]]
+            if (pm, pl, pr) != ([list(x) for x in board["moves"]], [list(x) for x in board["loose"]],
+                                [list(x) for x in board["rewards"]]):
+                r.stochastic_game_from_roborta_board.create_sg_from_board(pm, pr, pl, board["rb"], board["lb"], board["tb"])
+                for name in os.listdir("inputs"):
+                    with open(os.path.join("inputs", name), "rb") as f:
+                        before[name] = f.read()
         r.stochastic_game_from_roborta_board.create_sg_from_board(
             [row(x) for x in board["moves"]], [row(x) for x in board["rewards"]], [row(x) for x in board["loose"]],
             board["rb"], board["lb"], board["tb"])
         files = os.listdir("inputs")
         if len(files) != 1:
-            raise RuntimeError(f"manual entry point wrote {files}")
+            fresh = []
+            for name in files:
+                with open(os.path.join("inputs", name), "rb") as f:
+                    if f.read() != before.get(name):
+                        fresh.append(name)
+            if len(fresh) != 1:
+                raise RuntimeError(f"manual entry point wrote {files}")
+            files = fresh
         return r.conditionalrewards.read_dict_from_file(os.path.join("inputs", files[0]))
     finally:
         os.chdir(cwd)
@@ -231,6 +253,8 @@ def check_case(board):
         v.cls("manual_entry_point")
         if board.get("rows") == "tuple":
             v.cls("rows_written_as_tuples")
+        if board.get("prior"):
+            v.cls("after_another_hand_made_board_of_the_same_name")
     if any(len(repr(float(x)).replace(".", "").replace("-", "").strip("0")) > 6 for row in board["rewards"] for x in row):
         v.cls("reward_with_more_than_6_significant_digits")
     try:
